@@ -319,6 +319,66 @@ func tileOf(lat, lon float64, z int) (x, y int) {
 	return
 }
 
+// NamedRect: the rectangle a TILE / QUADKEY / HASH area denotes by the public definition of those names (web-mercator
+// tile pyramid, geohash cell) - computed here, not asked from the server - as [minlat minlon maxlat maxlon].
+func NamedRect(area []string) (r [4]float64, ok bool) {
+	mercLat := func(t float64) float64 { return math.Atan(math.Sinh(math.Pi*(1-2*t))) * 180 / math.Pi }
+	tile := func(x, y, z int) [4]float64 {
+		n := math.Exp2(float64(z))
+		r := [4]float64{mercLat(float64(y+1) / n), float64(x)/n*360 - 180, mercLat(float64(y) / n), float64(x+1)/n*360 - 180}
+		if y == 0 {
+			r[2] = maxMercLat
+		}
+		if y == int(n)-1 {
+			r[0] = minMercLat
+		}
+		return r
+	}
+	switch area[0] {
+	case "TILE":
+		x, e1 := strconv.Atoi(area[1])
+		y, e2 := strconv.Atoi(area[2])
+		z, e3 := strconv.Atoi(area[3])
+		if e1 != nil || e2 != nil || e3 != nil {
+			return r, false
+		}
+		return tile(x, y, z), true
+	case "QUADKEY":
+		x, y := 0, 0
+		for _, d := range area[1] {
+			x, y = x<<1, y<<1
+			if d == '1' || d == '3' {
+				x |= 1
+			}
+			if d == '2' || d == '3' {
+				y |= 1
+			}
+		}
+		return tile(x, y, len(area[1])), true
+	case "HASH":
+		b := geohash.BoundingBox(area[1])
+		return [4]float64{b.MinLat, b.MinLng, b.MaxLat, b.MaxLng}, true
+	}
+	return r, false
+}
+
+// Inset moves every side of a rectangle inwards (eps > 0) or outwards (eps < 0) by eps of its span, at least 1e-9
+// degrees, and keeps it on the globe.
+func Inset(r [4]float64, eps float64) [4]float64 {
+	d := func(span float64) float64 {
+		m := math.Max(math.Abs(eps)*span, 1e-9)
+		if eps < 0 {
+			return -m
+		}
+		return m
+	}
+	dla, dlo := d(r[2]-r[0]), d(r[3]-r[1])
+	o := [4]float64{r[0] + dla, r[1] + dlo, r[2] - dla, r[3] - dlo}
+	o[0], o[2] = math.Max(o[0], -90), math.Min(o[2], 90)
+	o[1], o[3] = math.Max(o[1], -180), math.Min(o[3], 180)
+	return o
+}
+
 func quadKey(x, y, z int) string {
 	var b []byte
 	for i := z; i > 0; i-- {
